@@ -284,6 +284,8 @@ def run_check(prop, tier, seed, replay=None):
         print("replay: %d events, %d rejected" % (n_events, len(rejects)))
         return 1 if n_viol else 0
 
+    if hasattr(mod, "summarize"):                 # optional: driver-specific counters computed from the recorded traces
+        ctx.extra.update(mod.summarize(cases, traces))
     nontriv = set()
     if hasattr(mod, "nontrivial"):
         for c in cases:
